@@ -212,7 +212,7 @@ def pages_ensure(file_, iface):
 from contracts import c14 as _c14
 from contracts import c02 as _c02
 
-SV_T = ObjT("ServedGhost", n=Int, kind=Int, path=Str, n_404=Int, n_redirect=Int, malformed=Bool,
+SV_T = ObjT("ServedGhost", n=Int, kind=Int, path=Str, n_404=Int, n_redirect=Int, malformed=Bool, url_path=Str, redirect_path=Str,
             # what the served response was decided for (C14): the file, the validators, the stat fields
             for_path=Str, inm=Str, ims=Str, mtime=Opaque("Float"), size=Int, ctime=Opaque("Float"))
 
@@ -264,7 +264,9 @@ def _malformed(ev, node):
 
 def _url_stub(ev, args, kwargs, node):
     _malformed(ev, node)
-    return ev.st.alloc(Obj("URL", {"path": ev.st.fresh(Str, "url.path")}))
+    up = ev.st.fresh(Str, "url.path")
+    ev.st.obj(ev.st.ghost["sv"]).fields["url_path"] = up       # the path of the REQUEST URL (mount prefix + path)
+    return ev.st.alloc(Obj("URL", {"path": up}))
 
 
 _url_stub.mods = ("sv",)
@@ -272,6 +274,8 @@ _url_stub.mods = ("sv",)
 
 def _url_replace(ev, recv, args, kwargs, node):
     _malformed(ev, node)
+    if "path" in kwargs:
+        ev.st.obj(ev.st.ghost["sv"]).fields["redirect_path"] = kwargs["path"]
     return ev.st.alloc(Obj("URL", {"path": kwargs.get("path", ev.st.obj(recv).fields["path"])}))
 
 
@@ -302,6 +306,10 @@ def mk_app_call(file_, iface, cls):
     }
     if cls == "Files":
         ensures["lookup"] = "implies(sv.n == 1, fs.n_stat == 1 and fs.last == resolved_rp())"
+    else:
+        # the directory redirect goes to the SAME URL plus '/': the path of the request URL (which includes the mount prefix -
+        # root_path / SCRIPT_NAME), quoted again, not the application-relative path
+        ensures["redirect_keeps_the_request_url"] = "implies(sv.n_redirect == 1, sv.redirect_path == quote_path(sv.url_path) + '/')"
     # ----- C14 at the level of the application: the 304 / 200 decision is taken for the validators THIS request presented,
     # against the stat result os.stat gave during THIS request for the very file that is served
     ensures["decided_on_current_state"] = ("implies(sv.n == 1, sv.for_path == fs.ok_path and sv.mtime == fs.ok_mtime and "
@@ -342,7 +350,7 @@ def mk_app_call(file_, iface, cls):
                   ["rp == scope['path']"] if iface == "asgi" else []) + extra_requires,
         defs=dict(DEFS, **dict(req_defs, **dict(_c14.DEFS, **{
             "resolved_rp()": "abspath(path_join(self.directory, join_segments(rp))) + ('/' if rp.endswith('/') else '')"}))),
-        ufuncs=dict(UF, is_abs_norm=([Str], Bool), S_ISREG=([Int], Bool), S_ISDIR=([Int], Bool), inm_upto=([Int], Str), ims_upto=([Int], Str),
+        ufuncs=dict(UF, quote_path=([Str], Str), is_abs_norm=([Str], Bool), S_ISREG=([Int], Bool), S_ISDIR=([Int], Bool), inm_upto=([Int], Str), ims_upto=([Int], Str),
                     date_parses=([Str], Bool), parsed_date=([Str], Opaque("Datetime")), dt_timestamp=([Opaque("Datetime")], Opaque("Float")),
                     floor_int=([Opaque("Float")], Int), etag_of=([Opaque("Float"), Int], Str)),
         stubs={"request_path": lambda ev, a, k, n: ev.st.ghost["rp"], "stat.S_ISDIR": _s_isdir, "URL": _url_stub,
